@@ -165,3 +165,28 @@ var _ = strings.Join
 
 // verifValueString renders a Value for comparison (String() of containers walks the real printing code).
 func verifValueString(v Value) string { return v.String() }
+
+// verifC18Run evaluates the chunks one Eval at a time on one VM (sharing the import-alias map, as the REPL does)
+// after pre-setting the inputs as globals main.in0, main.in1, ...; it returns the last Eval's values, the output,
+// the first error and the named globals.
+func verifC18Run(chunks []string, inputs []Value, globals []string) (o verifOutcome, gl []Value) {
+	rec := &verifRecorder{}
+	vm := New(WithStdout(rec))
+	for i, v := range inputs {
+		vm.Set(fmt.Sprintf("main.in%d", i), v)
+	}
+	imports := map[string]string{}
+	for _, c := range chunks {
+		rets, err := vm.Eval(verifMkFS(nil), "main.go", c, WithEvalImports(imports))
+		if err != nil {
+			o.evalErr = err
+			break
+		}
+		o.rets = rets
+	}
+	o.out = rec.String()
+	for _, g := range globals {
+		gl = append(gl, vm.Get("main."+g))
+	}
+	return o, gl
+}
